@@ -166,8 +166,11 @@ def load_known() -> dict:
 def finish(ctx: Ctx, started: float, selftest: dict | None = None, write_evidence: bool = True, evidence_dir: Path | None = None) -> int:
     """Match findings against the known list, print lines, write evidence, return exit code."""
     # floors
+    fired = {fd.rule for fd in ctx.findings}
     for rule, floor in ctx.rule_floor.items():
         got = ctx.rule_counts.get(rule, 0)
+        if rule in fired:
+            continue  # a rule that reports a finding is not vacuous (an enumeration may stop at its first finding)
         if got < floor:
             raise AnalysisError(
                 f"rule {rule} matched {got} instance(s), fewer than the {floor} confirmed by reading: "
